@@ -134,6 +134,12 @@ pub fn run_rustc(p: &Paths, tag: &str, krate: &Crate, entropy: u64) -> Result<Se
         if level != "error" && level != "warning" {
             continue;
         }
+        // Only diagnostics that educe produced: `compile_error!` carries no error code, whereas
+        // rustc's own follow-up errors on the generated code (unresolved names, ...) do. Different
+        // generated code is caught through the expanded text anyway.
+        if !matches!(j.get("code"), Some(J::Null) | None) {
+            continue;
+        }
         if msg.starts_with("aborting due to") || msg.contains("warning emitted") || msg.contains("warnings emitted") {
             continue;
         }
@@ -267,6 +273,7 @@ pub fn run(a: &Args, tier: &str, seed: u64) -> Result<E3Result, String> {
     let mut control_ref: Option<String> = None;
     let mut crates = 0u64;
     let max_minimised = a.u64("e3-max-violations", 2) as usize;
+    let jobs = a.u64("e3-jobs", 16) as usize;
     let mut further_differing = 0u64;
 
     'outer: for (ci, chunk) in all.chunks(crate_size).enumerate() {
@@ -275,6 +282,14 @@ pub fn run(a: &Args, tier: &str, seed: u64) -> Result<E3Result, String> {
         let mut reference: BTreeMap<usize, (ModObs, u64, usize)> = BTreeMap::new();
         let mut flagged: BTreeSet<usize> = BTreeSet::new();
         let mut order_srcs: Vec<String> = vec![];
+        // plan every session of this crate first (all PRNG draws happen here, sequentially) ...
+        struct Planned {
+            oi: usize,
+            order_seed: u64,
+            entropy: u64,
+            krate: std::sync::Arc<Crate>,
+        }
+        let mut planned: Vec<Planned> = vec![];
         for oi in 0..n_orders {
             let mut order: Vec<usize> = (0..mods.len()).collect();
             let order_seed = if oi == 0 { 0 } else { rng.next_u64() };
@@ -287,11 +302,41 @@ pub fn run(a: &Args, tier: &str, seed: u64) -> Result<E3Result, String> {
                     order.truncate(keep.max(1));
                 }
             }
-            let krate = build_crate(&mods, &order);
+            let krate = std::sync::Arc::new(build_crate(&mods, &order));
             order_srcs.push(krate.src.clone());
             for ei in 0..n_entropy {
                 let entropy = if oi == 0 && ei == 0 { 0 } else { 1 + ei + 1000 * oi as u64 + 100_000 * ci as u64 };
-                let sess = run_rustc(&p, &format!("c{ci}"), &krate, entropy)?;
+                planned.push(Planned { oi, order_seed, entropy, krate: krate.clone() });
+            }
+        }
+        // ... then run the compiler sessions in parallel (they are independent OS processes) and
+        // compare the results sequentially, in planned order
+        let results: Vec<Result<Session, String>> = {
+            let next = std::sync::atomic::AtomicUsize::new(0);
+            let slots: Vec<std::sync::Mutex<Option<Result<Session, String>>>> =
+                planned.iter().map(|_| std::sync::Mutex::new(None)).collect();
+            std::thread::scope(|sc| {
+                for _ in 0..jobs.min(planned.len()) {
+                    sc.spawn(|| loop {
+                        let k = next.fetch_add(1, std::sync::atomic::Ordering::SeqCst);
+                        if k >= planned.len() {
+                            break;
+                        }
+                        let pl = &planned[k];
+                        let r = run_rustc(&p, &format!("c{ci}s{k}"), &pl.krate, pl.entropy);
+                        *slots[k].lock().unwrap() = Some(r);
+                    });
+                }
+            });
+            slots.into_iter().map(|m| m.into_inner().unwrap().unwrap_or(Err("session not run".into()))).collect()
+        };
+        for (pl, sess) in planned.iter().zip(results.into_iter()) {
+            {
+                let (oi, order_seed, entropy) = (pl.oi, pl.order_seed, pl.entropy);
+                let ei = if oi == 0 && entropy == 0 { 0 } else { 1 };
+                let krate = &pl.krate;
+                let sess = sess?;
+
                 invocations += 1;
                 match &control_ref {
                     None => control_ref = Some(sess.control.clone()),
@@ -345,7 +390,7 @@ pub fn run(a: &Args, tier: &str, seed: u64) -> Result<E3Result, String> {
                                     loop {
                                         let mut improved = false;
                                         for cand in input_candidates(&cur_text) {
-                                            if cand.len() >= cur_text.len() || evals >= 40 {
+                                            if crate::shrink::tok_size(&cand) >= crate::shrink::tok_size(&cur_text) || evals >= 40 {
                                                 continue;
                                             }
                                             evals += 1;
